@@ -5,7 +5,10 @@ package main
 // by reading the function it names.
 
 import (
+	"fmt"
 	"go/ast"
+	"go/constant"
+	"go/token"
 	"go/types"
 	"strings"
 )
@@ -143,5 +146,605 @@ func c07TagLocals(c *Ctx, r *Report) {
 		}
 		r.Check(why == "", "C07.c", "R1 MUST-FLOW", key, c.pos(f.Decl.Pos()),
 			"after `<` the next token's text becomes the tag that the names of the line receive", why)
+	}
+}
+
+// c10SectionExtents — the lexer side of "prologue and %union body arrive unchanged" (C10.b): the value emitted for a
+// %{ … %} block / a %union { … } body is the input slice from the byte after the opening marker to the byte before
+// the closing marker, and the union's closing brace is the one that balances the opening one.
+func c10SectionExtents(c *Ctx, r *Report) {
+	const cl = "C10.b"
+	type spec struct {
+		fn, kind, closer string
+	}
+	for _, sp := range []spec{{"CodeQuoteBegin", "CodeQuote", "%}"}, {"DirectiveUnionState", "UnionDirective", "}"}} {
+		f := c.need(r, cl, "Parser", "", sp.fn)
+		if f == nil {
+			continue
+		}
+		info := f.Pkg.TypesInfo
+		cf := newCoverFn(f)
+		key := f.Name + "/value-is-the-text-between-the-markers"
+		isLexEnd := func(e ast.Expr) bool {
+			se, ok := unparen(e).(*ast.SelectorExpr)
+			return ok && fieldNamed(info, se, "end")
+		}
+		why := "no emitValue(" + sp.kind + ", input[start:end])"
+		ast.Inspect(f.Decl.Body, func(n ast.Node) bool {
+			call, ok := n.(*ast.CallExpr)
+			if !ok || len(call.Args) != 2 {
+				return true
+			}
+			if fn := callee(info, call); fn == nil || fn.Name() != "emitValue" {
+				return true
+			}
+			if kv, ok := constString(info, call.Args[0]); !ok || kv != kindConsts(c)[sp.kind] {
+				return true
+			}
+			se, ok := unparen(call.Args[1]).(*ast.SliceExpr)
+			if !ok || !fieldNamed(info, se.X, "input") || se.Low == nil || se.High == nil {
+				why = "the emitted value is not a slice input[start:end]"
+				return true
+			}
+			lo, hi := identObj(info, se.Low), identObj(info, se.High)
+			if lo == nil || hi == nil || cf.defs.count[lo] != 1 || cf.defs.count[hi] != 1 {
+				why = "start / end of the emitted slice are not locals with a single definition"
+				return true
+			}
+			// start: l.end, taken before anything of the body is consumed
+			if !isLexEnd(cf.defs.single[lo]) {
+				why = "the slice does not start at the lexer position recorded at the beginning of the body"
+				return true
+			}
+			// end: l.end − len(closing marker)
+			be, ok := unparen(cf.defs.single[hi]).(*ast.BinaryExpr)
+			if !ok || be.Op != token.SUB || !isLexEnd(be.X) {
+				why = "the slice does not end at `l.end − <length of the closing marker>`"
+				return true
+			}
+			if v, isC := constInt(info, be.Y); !isC || int(v) != len(sp.closer) {
+				why = fmt.Sprintf("the slice ends %s bytes before the lexer position, the closing marker %q is %d byte(s) long", exprString(be.Y), sp.closer, len(sp.closer))
+				return true
+			}
+			why = ""
+			return true
+		})
+		r.Check(why == "", cl, "R13 AFFINE", key, c.pos(f.Decl.Pos()),
+			fmt.Sprintf("the %s value is input[position after the opening marker : position − %d], i.e. everything up to the closing %q", sp.kind, len(sp.closer), sp.closer), why)
+	}
+	// %union: brace balance
+	if f := c.need(r, cl, "Parser", "", "DirectiveUnionState"); f != nil {
+		info := f.Pkg.TypesInfo
+		var level types.Object
+		ast.Inspect(f.Decl.Body, func(n ast.Node) bool {
+			if id, ok := n.(*ast.IncDecStmt); ok {
+				if o := identObj(info, id.X); o != nil {
+					level = o
+				}
+			}
+			return true
+		})
+		var loop *ast.ForStmt
+		for _, st := range f.Decl.Body.List {
+			if ls, ok := st.(*ast.LabeledStmt); ok {
+				if fs, ok := ls.Stmt.(*ast.ForStmt); ok {
+					loop = fs
+				}
+			}
+			if fs, ok := st.(*ast.ForStmt); ok {
+				loop = fs
+			}
+		}
+		key := f.Name + "/closing-brace-balances-the-opening-one"
+		if level == nil || loop == nil {
+			r.Undecided(cl, "R4 DECISION-TABLE", key, c.pos(f.Decl.Pos()), "no nesting counter / scanning loop")
+			return
+		}
+		pe := newPathEnum(info)
+		pe.rename[level] = "LEVEL"
+		paths, err := pe.Enumerate(loop.Body.List)
+		why := ""
+		if err != nil {
+			why = err.Error()
+		}
+		val := func(ch int64) func(t *Term) (constant.Value, bool) {
+			return func(t *Term) (constant.Value, bool) {
+				if t.Op == "call" && strings.HasSuffix(t.Name, "lexer).next") {
+					return constant.MakeInt64(ch), true
+				}
+				return nil, false
+			}
+		}
+		delta := func(p *PathOut) string {
+			t := p.Env[level]
+			if t == nil {
+				return "0"
+			}
+			switch t.String() {
+			case "(LEVEL + 1)":
+				return "+1"
+			case "(LEVEL - 1)":
+				return "-1"
+			}
+			return t.String()
+		}
+		for _, cs := range []struct {
+			name string
+			ch   int64
+		}{{"{", '{'}, {"}", '}'}, {"other", 'x'}} {
+			for _, p := range selectPaths(paths, val(cs.ch)) {
+				d := delta(p)
+				switch cs.name {
+				case "{":
+					if d != "+1" || p.Kind != "fall" {
+						why = "an opening brace does not raise the nesting level by one and continue"
+					}
+				case "}":
+					if d != "-1" {
+						why = "a closing brace does not lower the nesting level by one"
+					}
+					zero := false
+					for _, cd := range p.Conds {
+						if cd.Atom.String() == "((LEVEL - 1) == 0)" && cd.Pol {
+							zero = true
+						}
+					}
+					if zero != (p.Kind == "break") {
+						why = "the scan does not stop exactly at the brace that brings the level back to 0"
+					}
+				default:
+					if d != "0" || p.Kind != "fall" {
+						why = "another character changes the nesting level or ends the scan"
+					}
+				}
+			}
+		}
+		// the level is 1 when the scan starts: `level := 0` … `level++` after the opening brace
+		init0, inc := false, 0
+		for _, st := range f.Decl.Body.List {
+			if st.Pos() >= loop.Pos() {
+				break
+			}
+			switch x := st.(type) {
+			case *ast.AssignStmt:
+				if len(x.Lhs) == 1 && identObj(info, x.Lhs[0]) == level {
+					if v, isC := constInt(info, x.Rhs[0]); isC && v == 0 {
+						init0 = true
+					}
+				}
+			case *ast.IncDecStmt:
+				if identObj(info, x.X) == level && x.Tok == token.INC {
+					inc++
+				}
+			}
+		}
+		if why == "" && (!init0 || inc != 1) {
+			why = "the nesting level is not 1 when the body scan starts"
+		}
+		r.Check(why == "", cl, "R4 DECISION-TABLE", key, c.pos(loop.Pos()),
+			"level starts at 1; `{` → +1, `}` → −1 and stop exactly when it reaches 0, any other character leaves it alone", why)
+	}
+}
+
+// c09InsertDecision — InsertItemClosure(state, needCheck): the state is appended (index = position, returned) exactly
+// when needCheck is false or the state is not yet present; otherwise nothing is appended and a negative value says so.
+func c09InsertDecision(c *Ctx, r *Report, clause string) {
+	f := c.need(r, clause, "LR", "LR0", "InsertItemClosure")
+	if f == nil {
+		return
+	}
+	info := f.Pkg.TypesInfo
+	key := f.Name + "/inserts-iff-unchecked-or-new"
+	ps := paramObjs(info, f.Decl)
+	if len(ps) != 2 {
+		r.Undecided(clause, "R4 DECISION-TABLE", key, c.pos(f.Decl.Pos()), "expected (state, needCheck)")
+		return
+	}
+	pe := newPathEnum(info)
+	pe.rename[ps[0]] = "IC"
+	pe.rename[ps[1]] = "NEEDCHECK"
+	paths, err := pe.Enumerate(f.Decl.Body.List)
+	if err != nil {
+		r.Undecided(clause, "R4 DECISION-TABLE", key, c.pos(f.Decl.Pos()), err.Error())
+		return
+	}
+	why := ""
+	n := 0
+	for _, needCheck := range []bool{false, true} {
+		for _, exists := range []bool{false, true} {
+			nc, ex := needCheck, exists
+			val := func(t *Term) (constant.Value, bool) {
+				switch {
+				case t.Op == "leaf" && t.Name == "NEEDCHECK":
+					return constant.MakeBool(nc), true
+				case strings.HasPrefix(t.String(), "result1(") && strings.Contains(t.String(), "CheckIsExist("):
+					return constant.MakeBool(ex), true
+				case t.Op == "cmp" && strings.Contains(t.String(), "len(IC.Items)"):
+					return constant.MakeBool(false), true // a non-empty state
+				}
+				return nil, false
+			}
+			for _, p := range selectPaths(paths, val) {
+				if p.Kind == "panic" {
+					continue
+				}
+				n++
+				appended := false
+				for _, e := range p.Effects {
+					if e.Kind == "store" && strings.HasSuffix(e.LHS.String(), ".LR0Closure") && strings.HasPrefix(e.Term.String(), "append(") && strings.HasSuffix(e.Term.String(), ", IC)") {
+						appended = true
+					}
+				}
+				want := !nc || !ex
+				if appended != want {
+					why = fmt.Sprintf("needCheck=%v, already present=%v: the state is %s", nc, ex, map[bool]string{true: "appended although it must not be", false: "not appended"}[appended])
+				}
+				if p.Kind != "return" || len(p.Vals) != 1 {
+					why = "a path does not return one value"
+					continue
+				}
+				if !want {
+					if p.Vals[0].Op != "const" {
+						why = "a refused insertion does not return a constant"
+					} else if v, ok := constant.Int64Val(constant.ToInt(p.Vals[0].Val)); !ok || v >= 0 {
+						why = "a refused insertion returns a possible state index"
+					}
+				}
+			}
+		}
+	}
+	if why == "" && n < 3 {
+		why = "the decision classes could not be enumerated"
+	}
+	r.Check(why == "", clause, "R4 DECISION-TABLE", key, c.pos(f.Decl.Pos()),
+		"the state is appended exactly when needCheck is false or CheckIsExist does not find it; a refusal returns a negative constant", why)
+}
+
+// c01StartSymbolFlow — the grammar's rule 0 is start′ → S where S is the symbol made from the identifier recorded as
+// start symbol (the %start name or `start`): the local that receives it is assigned under exactly `id == startSym`
+// and rule 0's right-hand side is that local alone.
+func c01StartSymbolFlow(c *Ctx, r *Report, clause string) {
+	f := c.need(r, clause, "Parser", "Walker", "BuildLALR1")
+	if f == nil {
+		return
+	}
+	info := f.Pkg.TypesInfo
+	key := f.Name + "/rule-0-derives-the-declared-start-symbol"
+	why := "no rule `NewProductoinRule(g.StartSymbol, {S})` inserted before the user's rules"
+	ast.Inspect(f.Decl.Body, func(n ast.Node) bool {
+		call, ok := n.(*ast.CallExpr)
+		if !ok || len(call.Args) != 2 {
+			return true
+		}
+		if fn := callee(info, call); fn == nil || fn.Name() != "NewProductoinRule" || !fieldNamed(info, call.Args[0], "StartSymbol") {
+			return true
+		}
+		cl, ok := unparen(call.Args[1]).(*ast.CompositeLit)
+		if !ok || len(cl.Elts) != 1 {
+			why = "rule 0's right-hand side is not a single symbol"
+			return true
+		}
+		first := identObj(info, cl.Elts[0])
+		if first == nil {
+			why = "rule 0's right-hand side is not a local holding the start symbol"
+			return true
+		}
+		// writes of that local
+		nW := 0
+		for _, w := range localWrites(f, first) {
+			if w.op == "var" {
+				continue
+			}
+			nW++
+			target := nodeAt(f.Decl.Body, w.pos)
+			if target == nil {
+				continue
+			}
+			atoms := guardAtoms(c, f, target)
+			var rel []string
+			for _, a := range atoms {
+				if a == "($ok)" || strings.Contains(a, ".Value != -1") {
+					continue
+				}
+				rel = append(rel, a)
+			}
+			if len(rel) == 1 && !strings.HasPrefix(rel[0], "!") && strings.Contains(rel[0], " == ") && strings.Contains(rel[0], ".startSym") {
+				why = ""
+			} else {
+				why = fmt.Sprintf("the symbol used in rule 0 is chosen under %v, not exactly when the identifier is the recorded start symbol", rel)
+			}
+		}
+		if nW != 1 {
+			why = fmt.Sprintf("the local used in rule 0 has %d assignments, expected one", nW)
+		}
+		return true
+	})
+	r.Check(why == "", clause, "R1 MUST-FLOW", key, c.pos(f.Decl.Pos()),
+		"rule 0 is start′ → S with S the symbol of the identifier that %start (or the default name) designates", why)
+}
+
+// c04NoPrecedenceSentinel — "this symbol / rule has no precedence" is one value everywhere: what NewSymbol gives a
+// fresh symbol, what CheckAndResolveConflict gives a rule without precedence symbol, what ResolveConflict tests for.
+func c04NoPrecedenceSentinel(c *Ctx, r *Report, clause string) {
+	key := "LALR+Symbol/no-precedence-sentinel"
+	var vals []string
+	note := func(where string, v int64) { vals = append(vals, fmt.Sprintf("%s: %d", where, v)) }
+	var all []int64
+	if f := c.need(r, clause, "Symbol", "", "NewSymbol"); f != nil {
+		info := f.Pkg.TypesInfo
+		ast.Inspect(f.Decl.Body, func(n ast.Node) bool {
+			if kv, ok := n.(*ast.KeyValueExpr); ok {
+				if id, ok := kv.Key.(*ast.Ident); ok && id.Name == "Prec" {
+					if v, isC := constInt(info, kv.Value); isC {
+						note("NewSymbol", v)
+						all = append(all, v)
+					}
+				}
+			}
+			return true
+		})
+	}
+	if f := c.need(r, clause, "LALR", "LALR1", "CheckAndResolveConflict"); f != nil {
+		info := f.Pkg.TypesInfo
+		// Pre := <const> … Prec: Pre
+		ast.Inspect(f.Decl.Body, func(n ast.Node) bool {
+			if as, ok := n.(*ast.AssignStmt); ok && as.Tok == token.DEFINE && len(as.Lhs) == 1 && len(as.Rhs) == 1 {
+				if v, isC := constInt(info, as.Rhs[0]); isC {
+					o := identObj(info, as.Lhs[0])
+					used := false
+					ast.Inspect(f.Decl.Body, func(m ast.Node) bool {
+						if kv, ok := m.(*ast.KeyValueExpr); ok {
+							if id, ok := kv.Key.(*ast.Ident); ok && id.Name == "Prec" && identObj(info, kv.Value) == o {
+								used = true
+							}
+						}
+						return true
+					})
+					if used {
+						note("rule without precedence symbol", v)
+						all = append(all, v)
+					}
+				}
+			}
+			return true
+		})
+	}
+	if f := c.need(r, clause, "LALR", "LALR1", "ResolveConflict"); f != nil {
+		info := f.Pkg.TypesInfo
+		ast.Inspect(f.Decl.Body, func(n ast.Node) bool {
+			if be, ok := n.(*ast.BinaryExpr); ok && be.Op == token.EQL && fieldNamed(info, be.X, "Prec") {
+				if v, isC := constInt(info, be.Y); isC {
+					note("ResolveConflict's test", v)
+					all = append(all, v)
+				}
+			}
+			return true
+		})
+	}
+	ok := len(all) >= 4
+	for _, v := range all {
+		if v != all[0] || v >= 0 {
+			ok = false
+		}
+	}
+	r.Check(ok, clause, "R10 SIBLING-SITES", key, "LALR/Table.go, Symbol/symbol.go",
+		fmt.Sprintf("one negative value means `no precedence` at all %d sites (%v)", len(all), vals),
+		fmt.Sprintf("the sites that produce and test `no precedence` disagree or use a possible level (%v): a symbol without precedence would take part in precedence comparisons", vals))
+}
+
+// c10DirectiveWords — every directive word the lexer recognises produces its own token kind: %type → TypeDirective,
+// %token → TokenDirective, %left / %right / %nonassoc → the three associativity kinds, %prec → PrecDirective,
+// %start → StartDirective (the parser's dispatch is checked by C04 / C07 / C10 rules on these kinds).
+func c10DirectiveWords(c *Ctx, r *Report, clause string) {
+	f := c.need(r, clause, "Parser", "", "DirectiveOtherState")
+	if f == nil {
+		return
+	}
+	info := f.Pkg.TypesInfo
+	want := map[string]string{"type": "TypeDirective", "token": "TokenDirective", "left": "LeftAssoc", "right": "RightAssoc", "nonassoc": "NoneAssoc", "prec": "PrecDirective", "start": "StartDirective"}
+	kinds := kindConsts(c)
+	got := map[string]string{}
+	for _, st := range f.Decl.Body.List {
+		is, ok := st.(*ast.IfStmt)
+		if !ok || is.Else != nil {
+			continue
+		}
+		call, ok := unparen(is.Cond).(*ast.CallExpr)
+		if !ok || len(call.Args) != 1 {
+			continue
+		}
+		fn := callee(info, call)
+		w, isC := constString(info, call.Args[0])
+		if fn == nil || !strings.HasPrefix(fn.Name(), "accept") || !isC {
+			continue
+		}
+		for _, bs := range is.Body.List {
+			if es, ok := bs.(*ast.ExprStmt); ok {
+				if ec, ok := es.X.(*ast.CallExpr); ok && len(ec.Args) == 1 {
+					if efn := callee(info, ec); efn != nil && efn.Name() == "emit" {
+						if kv, ok := constString(info, ec.Args[0]); ok {
+							got[w] = kv
+						}
+					}
+				}
+			}
+		}
+	}
+	var bad []string
+	for w, k := range want {
+		if got[w] != kinds[k] || kinds[k] == "" {
+			bad = append(bad, fmt.Sprintf("%%%s → %q (expected kind %s)", w, got[w], k))
+		}
+	}
+	sortStrings(bad)
+	r.Check(len(bad) == 0, clause, "R4 DECISION-TABLE", f.Name+"/directive-word-to-token-kind", c.pos(f.Decl.Pos()),
+		fmt.Sprintf("all %d directive words emit their own token kind, at function level (no other condition)", len(want)),
+		"a directive word does not produce its token: "+strings.Join(bad, "; "))
+}
+
+// c10CursorDiscipline — the lexer's look-ahead helpers leave the cursor where the caller expects it:
+// acceptRun reads one rune past the run and gives exactly that rune back; acceptWord / acceptOnlyAlphaWord put the
+// cursor back to where it was on entry whenever they answer false (the caller then tries the next alternative on the
+// same text). A helper that keeps some of the text it looked at makes the following token start too late.
+func c10CursorDiscipline(c *Ctx, r *Report, clause string) {
+	if f := c.need(r, clause, "Parser", "lexer", "acceptRun"); f != nil {
+		info := f.Pkg.TypesInfo
+		why := ""
+		var loop *ast.ForStmt
+		backups := 0
+		for _, st := range f.Decl.Body.List {
+			switch x := st.(type) {
+			case *ast.ForStmt:
+				loop = x
+			case *ast.ExprStmt:
+				if call, ok := x.X.(*ast.CallExpr); ok {
+					if fn := callee(info, call); fn != nil && fn.Name() == "backup" && loop != nil {
+						backups++
+					}
+				}
+			}
+		}
+		nextInCond := 0
+		if loop != nil && loop.Cond != nil {
+			ast.Inspect(loop.Cond, func(n ast.Node) bool {
+				if call, ok := n.(*ast.CallExpr); ok {
+					if fn := callee(info, call); fn != nil && fn.Name() == "next" {
+						nextInCond++
+					}
+				}
+				return true
+			})
+		}
+		switch {
+		case loop == nil || nextInCond != 1 || len(loop.Body.List) != 0:
+			why = "not the form `for <member>(l.next()) {}`"
+		case backups != 1:
+			why = fmt.Sprintf("the rune that ended the run is given back %d times, expected once: the next token would start one rune late (or early)", backups)
+		}
+		r.Check(why == "", clause, "R2 ORDER", f.Name+"/gives-back-the-terminating-rune", c.pos(f.Decl.Pos()),
+			"acceptRun consumes the run and backs up exactly once over the rune that ended it", why)
+	}
+	for _, name := range []string{"acceptWord", "acceptOnlyAlphaWord"} {
+		f := c.need(r, clause, "Parser", "lexer", name)
+		if f == nil {
+			continue
+		}
+		info := f.Pkg.TypesInfo
+		defs := newDefs(info)
+		defs.scan(f.Decl.Body)
+		pm := parentMap(f.Decl.Body)
+		isLexEnd := func(e ast.Expr) bool {
+			se, ok := unparen(e).(*ast.SelectorExpr)
+			return ok && fieldNamed(info, se, "end")
+		}
+		// the saved entry position: a local whose single definition is l.end in the function's first statement
+		var saved types.Object
+		if as, ok := f.Decl.Body.List[0].(*ast.AssignStmt); ok && len(as.Lhs) == len(as.Rhs) {
+			for i, rhs := range as.Rhs {
+				if isLexEnd(rhs) {
+					saved = identObj(info, as.Lhs[i])
+				}
+			}
+		}
+		why := ""
+		nFalse := 0
+		if saved == nil {
+			why = "the entry position is not saved first"
+		}
+		ast.Inspect(f.Decl.Body, func(n ast.Node) bool {
+			rt, ok := n.(*ast.ReturnStmt)
+			if !ok || len(rt.Results) != 1 || why != "" {
+				return true
+			}
+			cv := constOf(info, rt.Results[0])
+			if cv == nil || cv.Kind() != constant.Bool || constant.BoolVal(cv) {
+				return true
+			}
+			nFalse++
+			blk, _ := pm[rt].(*ast.BlockStmt)
+			restored := false
+			if blk != nil {
+				for i, st := range blk.List {
+					if st != ast.Stmt(rt) || i == 0 {
+						continue
+					}
+					if as, ok := blk.List[i-1].(*ast.AssignStmt); ok && len(as.Lhs) == len(as.Rhs) {
+						for k, l := range as.Lhs {
+							if isLexEnd(l) && identObj(info, as.Rhs[k]) == saved {
+								restored = true
+							}
+						}
+					}
+				}
+			}
+			if !restored {
+				why = "a `return false` at " + c.pos(rt.Pos()) + " is not preceded by restoring the cursor to the entry position: the text looked at is lost for the next alternative"
+			}
+			return true
+		})
+		if why == "" && nFalse == 0 {
+			why = "no failing exit found"
+		}
+		r.Check(why == "", clause, "R2 ORDER", f.Name+"/failure-restores-the-cursor", c.pos(f.Decl.Pos()),
+			fmt.Sprintf("all %d failing exits put the cursor back to the position saved on entry", nFalse), why)
+	}
+}
+
+// c10TokenStartDiscipline — a token's text is input[start:end]; emitting a token (emitValue) and skipping text (ignore)
+// both move `start` up to `end`, so the next token's text begins where this one ended; word() is exactly that slice.
+func c10TokenStartDiscipline(c *Ctx, r *Report, clause string) {
+	isField := func(info *types.Info, e ast.Expr, name string) bool {
+		se, ok := unparen(e).(*ast.SelectorExpr)
+		return ok && fieldNamed(info, se, name)
+	}
+	for _, name := range []string{"emitValue", "ignore"} {
+		f := c.need(r, clause, "Parser", "lexer", name)
+		if f == nil {
+			continue
+		}
+		info := f.Pkg.TypesInfo
+		ok := false
+		for _, st := range f.Decl.Body.List { // function level: unconditional
+			if as, isA := st.(*ast.AssignStmt); isA && len(as.Lhs) == 1 && len(as.Rhs) == 1 && as.Tok == token.ASSIGN {
+				if isField(info, as.Lhs[0], "start") && isField(info, as.Rhs[0], "end") {
+					ok = true
+				}
+			}
+		}
+		r.Check(ok, clause, "R2 ORDER", f.Name+"/start-moves-up-to-end", c.pos(f.Decl.Pos()),
+			name+" sets start = end unconditionally: the next token's text begins after this one",
+			name+" does not move start up to end: the next token's text would still contain the text just emitted / skipped")
+	}
+	if f := c.need(r, clause, "Parser", "lexer", "word"); f != nil {
+		info := f.Pkg.TypesInfo
+		ok := false
+		if len(f.Decl.Body.List) == 1 {
+			if rt, isR := f.Decl.Body.List[0].(*ast.ReturnStmt); isR && len(rt.Results) == 1 {
+				if se, isS := unparen(rt.Results[0]).(*ast.SliceExpr); isS && isField(info, se.X, "input") && se.Low != nil && se.High != nil && isField(info, se.Low, "start") && isField(info, se.High, "end") {
+					ok = true
+				}
+			}
+		}
+		r.Check(ok, clause, "R13 AFFINE", f.Name+"/is-input-start-to-end", c.pos(f.Decl.Pos()), "word() is input[start:end]", "word() is not input[start:end]")
+	}
+	if f := c.need(r, clause, "Parser", "lexer", "emit"); f != nil {
+		info := f.Pkg.TypesInfo
+		ok := false
+		ast.Inspect(f.Decl.Body, func(n ast.Node) bool {
+			if call, isC := n.(*ast.CallExpr); isC && len(call.Args) == 2 {
+				if fn := callee(info, call); fn != nil && fn.Name() == "emitValue" {
+					if wc, isW := unparen(call.Args[1]).(*ast.CallExpr); isW {
+						if wf := callee(info, wc); wf != nil && wf.Name() == "word" {
+							ps := paramObjs(info, f.Decl)
+							if len(ps) == 1 && identObj(info, call.Args[0]) == ps[0] {
+								ok = true
+							}
+						}
+					}
+				}
+			}
+			return true
+		})
+		r.Check(ok, clause, "R1 PROVENANCE", f.Name+"/emits-the-current-word", c.pos(f.Decl.Pos()), "emit(kind) = emitValue(kind, word())", "emit does not emit the current word under the given kind")
 	}
 }
